@@ -32,6 +32,8 @@ package main
 //                 SessionIDExpiry -> c_idexpiry c, SessionIDGracePeriod ->
 //                 c_grace c, SessionCacheExpiry -> c_cacheexpiry c,
 //                 AcceptChangingUserAgent -> c_acceptua c
+//                 (generator PureFnIP, below, adds AcceptRemoteIP, len, x[i],
+//                 comparisons of x[i], and a counted loop with break)
 //               a local variable of the enclosing function that is defined
 //                 exactly once (x := e), never assigned again, never has its
 //                 address taken: replaced by its defining expression
@@ -79,10 +81,14 @@ const (
 	pfHash
 	pfIntLit
 	pfEmptyStr
+	pfCaps  // []string: the result of FindStringSubmatch (Coq list bytes)
+	pfStr   // string (Coq bytes), only under len
+	pfOStr  // x[i]: option bytes, None = index out of range (Go panics)
+	pfPBool // a comparison of two x[i]: option bool, None = Go panics
 )
 
 func (t pfType) String() string {
-	return [...]string{"time.Duration", "bool", "time.Time", "string field", "uint64 hash", "integer literal", `""`}[t]
+	return [...]string{"time.Duration/int", "bool", "time.Time", "string field", "uint64 hash", "integer literal", `""`, "[]string", "string", "indexed string", "comparison of indexed strings"}[t]
 }
 
 func (t pfType) coq() string {
@@ -108,6 +114,7 @@ var pfConfig = map[string]pfVal{
 	"SessionIDGracePeriod":    {"(c_grace c)", pfDur},
 	"SessionCacheExpiry":      {"(c_cacheexpiry c)", pfDur},
 	"AcceptChangingUserAgent": {"(c_acceptua c)", pfBool},
+	"AcceptRemoteIP":          {"(c_acceptip c)", pfDur}, // int: 64-bit, same arithmetic as int64
 }
 
 var pfFields = map[string]pfVal{
@@ -219,6 +226,9 @@ func (e *pfEnv) expr(x ast.Expr) (pfVal, error) {
 		}
 		switch n.Op {
 		case token.NOT:
+			if v.typ == pfPBool {
+				return pfVal{"(option_map negb " + v.term + ")", pfPBool}, nil
+			}
 			if v.typ != pfBool {
 				return pfVal{}, e.errf(n, "! applied to %s", v.typ)
 			}
@@ -231,6 +241,20 @@ func (e *pfEnv) expr(x ast.Expr) (pfVal, error) {
 			return pfVal{"(wrap64 (- " + v.term + "))", pfDur}, nil
 		}
 		return pfVal{}, e.errf(n, "unary operator %s", n.Op)
+	case *ast.IndexExpr:
+		x, err := e.expr(n.X)
+		if err != nil {
+			return pfVal{}, err
+		}
+		i, err := e.expr(n.Index)
+		if err != nil {
+			return pfVal{}, err
+		}
+		i = pfCoerce(i, pfDur)
+		if x.typ != pfCaps || i.typ != pfDur {
+			return pfVal{}, e.errf(n, "index expression on %s with %s", x.typ, i.typ)
+		}
+		return pfVal{"(caps_idx " + x.term + " " + i.term + ")", pfOStr}, nil
 	case *ast.BinaryExpr:
 		return e.binary(n)
 	case *ast.CallExpr:
@@ -300,6 +324,12 @@ func (e *pfEnv) binary(n *ast.BinaryExpr) (pfVal, error) {
 			t = "(N.eqb " + a.term + " " + b.term + ")"
 		case a.typ == pfBool && b.typ == pfBool:
 			t = "(Bool.eqb " + a.term + " " + b.term + ")"
+		case a.typ == pfOStr && b.typ == pfOStr:
+			t = "(ostr_eq " + a.term + " " + b.term + ")"
+			if n.Op == token.NEQ {
+				t = "(option_map negb " + t + ")"
+			}
+			return pfVal{t, pfPBool}, nil
 		case a.typ == pfStrOpt && b.typ == pfEmptyStr:
 			t = "(match " + a.term + " with None => true | Some _ => false end)"
 		case a.typ == pfEmptyStr && b.typ == pfStrOpt:
@@ -332,6 +362,16 @@ func (e *pfEnv) call(n *ast.CallExpr) (pfVal, error) {
 			return pfVal{"(since " + v.term + " now)", pfDur}, nil
 		}
 	case *ast.Ident:
+		if f.Name == "len" && len(n.Args) == 1 {
+			v, err := e.expr(n.Args[0])
+			if err != nil {
+				return pfVal{}, err
+			}
+			if v.typ != pfCaps && v.typ != pfStr {
+				return pfVal{}, e.errf(n, "len applied to %s", v.typ)
+			}
+			return pfVal{"(Z.of_nat (length " + v.term + "))", pfDur}, nil
+		}
 		if f.Name == "addDurations" && len(n.Args) == 2 {
 			var args []string
 			for _, a := range n.Args {
@@ -348,7 +388,7 @@ func (e *pfEnv) call(n *ast.CallExpr) (pfVal, error) {
 			return pfVal{"(gen_addDurations " + strings.Join(args, " ") + ")", pfDur}, nil
 		}
 	}
-	return pfVal{}, e.errf(n, "call outside the translated subset (only time.Since and addDurations)")
+	return pfVal{}, e.errf(n, "call outside the translated subset (only time.Since, addDurations, len)")
 }
 
 // lockCall: recv.Lock() / RLock() / Unlock() / RUnlock() without arguments on
@@ -806,6 +846,292 @@ func genPureFn(p *pkg) (string, error) {
 			return "", err
 		}
 		emitCond("gen_idle", "cache.go, compact: if "+oneLine(p.text(s.Cond))+" { Persistence.SaveSession(id, session); delete(c.sessions, id) }", e, term, "")
+	}
+	return b.String(), nil
+}
+
+// ---------------------------------------------------------------------------
+// Gen/PureFnIP.v (generator PureFnIP): the remaining decision code of Start.
+//
+// The remote-address block
+//     if G1 {                                   // mentions AcceptRemoteIP, body holds regexp.MustCompile
+//         re := regexp.MustCompile(<literal>)   // not translated: Gen/AddrRe.v, addr_pattern_pinned
+//         x := re.FindStringSubmatch(ip)                  // not translated: AddrRe.submatch;
+//         y := re.FindStringSubmatch(request.RemoteAddr)  //   x, y become parameters ([]string)
+//         if G2 { for i := e0; C; i++ { if B { valid = E; break } } }
+//     }
+// -> gen_ip_loop (the loop, a nat-fuelled recursion over i) and
+//    gen_ip_ok c valid prevCaps curCaps : option bool - the value of valid
+//    afterwards; None: Go panics (index out of range) or the translation's loop
+//    bound (pfLoopFuel iterations) is exceeded.
+// Additional subset: AcceptRemoteIP -> c_acceptip c (int: 64-bit, arithmetic as
+// for int64); len(x) of a []string / string -> Z.of_nat (length x); x[i] ->
+// caps_idx x i (option: None when i is negative or >= len x); ==, != of two
+// x[i] -> option bool; ! of that; `for i := e0; C; i++ { if B { valid = E;
+// break } }` with B such a comparison or a boolean expression.
+// Which capture list is the recorded address's is decided by the argument of
+// FindStringSubmatch: `ip` with ip := session.lastIP (or session.lastIP
+// itself) is the recorded one, request.RemoteAddr the request's.
+//
+// The look-up guard: the `if` of Start whose body begins with
+// sessionIDMutexes.Lock(...) -> gen_lookup_guard id (id : bytes).
+
+const pfLoopFuel = 6
+
+func init() {
+	generators["PureFnIP"] = genPureFnIP
+}
+
+func genPureFnIP(p *pkg) (string, error) {
+	var b strings.Builder
+	b.WriteString("(* Generated from /repo/*.go by /verif/translator (purefn.go, generator PureFnIP).\n")
+	b.WriteString("   Do not edit. The remote-address block and the look-up guard of Start translated\n")
+	b.WriteString("   from the Go AST. A []string is a list of byte strings; x[i] is caps_idx x i\n")
+	b.WriteString("   (None: index out of range - Go panics); a result None of gen_ip_ok / gen_ip_loop\n")
+	b.WriteString("   means: Go panics, or more than the translation's bound of loop iterations. *)\n")
+	b.WriteString("From Sessions Require Import Model.Base Model.Sess.\nLocal Open Scope Z_scope.\n\n")
+	b.WriteString("Definition caps_idx (x : list bytes) (i : Z) : option bytes :=\n  if i <? 0 then None else nth_error x (Z.to_nat i).\n\n")
+	b.WriteString("Definition ostr_eq (a b : option bytes) : option bool :=\n  match a, b with Some x, Some y => Some (bytes_eqb x y) | _, _ => None end.\n\n")
+
+	start := p.funcDecl("", "Start")
+	if start == nil || start.Body == nil {
+		return "", fmt.Errorf("func Start not found")
+	}
+	newEnv := func(where string) (*pfEnv, error) {
+		e := &pfEnv{p: p, where: where, recs: map[string]bool{"session": true}, bound: map[string]pfVal{}, inline: map[string]ast.Expr{}, busy: map[string]bool{}}
+		in, err := pfOnceDefined(e, start)
+		if err != nil {
+			return nil, err
+		}
+		e.inline = in
+		return e, nil
+	}
+	boolOf := func(e *pfEnv, x ast.Expr) (string, error) {
+		v, err := e.expr(x)
+		if err != nil {
+			return "", err
+		}
+		if v.typ != pfBool {
+			return "", e.errf(x, "condition of type %s", v.typ)
+		}
+		return v.term, nil
+	}
+
+	// ---- the remote-address block
+	{
+		e, err := newEnv("Start, remote-address block")
+		if err != nil {
+			return "", err
+		}
+		outer := pfIfs(start, func(s *ast.IfStmt) bool {
+			return pfMentions(s.Cond, "AcceptRemoteIP") && pfCalls(s.Body, "regexp", "MustCompile")
+		})
+		if len(outer) != 1 {
+			return "", fmt.Errorf("Start: an if statement on AcceptRemoteIP whose body compiles the pattern: found %d times, expected exactly once", len(outer))
+		}
+		o := outer[0]
+		if o.Init != nil || o.Else != nil {
+			return "", e.errf(o, "the if statement around the address pattern has an init clause or an else")
+		}
+		var reName, prevName, curName string
+		var inner *ast.IfStmt
+		var notes []string
+		for i, st := range o.Body.List {
+			if s, ok := st.(*ast.IfStmt); ok && i == len(o.Body.List)-1 {
+				inner = s
+				continue
+			}
+			as, ok := st.(*ast.AssignStmt)
+			if !ok || as.Tok != token.DEFINE || len(as.Lhs) != 1 || len(as.Rhs) != 1 {
+				return "", e.errf(st, "statement in the remote-address block other than `x := ...` and a final if")
+			}
+			lhs, ok := as.Lhs[0].(*ast.Ident)
+			call, ok2 := as.Rhs[0].(*ast.CallExpr)
+			if !ok || !ok2 {
+				return "", e.errf(st, "statement in the remote-address block other than `x := f(...)`")
+			}
+			sel, ok := call.Fun.(*ast.SelectorExpr)
+			recv, ok2 := (ast.Expr)(nil), false
+			if ok {
+				recv = sel.X
+				_, ok2 = recv.(*ast.Ident)
+			}
+			if !ok || !ok2 || len(call.Args) != 1 {
+				return "", e.errf(st, "call in the remote-address block other than regexp.MustCompile(lit) / re.FindStringSubmatch(s)")
+			}
+			rid := recv.(*ast.Ident).Name
+			switch {
+			case rid == "regexp" && sel.Sel.Name == "MustCompile" && reName == "":
+				if lit, ok := call.Args[0].(*ast.BasicLit); !ok || lit.Kind != token.STRING {
+					return "", e.errf(st, "regexp.MustCompile of something that is not a string literal")
+				}
+				reName = lhs.Name
+				notes = append(notes, "not translated (Gen/AddrRe.v, AddrRe.submatch): "+oneLine(p.text(st)))
+			case reName != "" && rid == reName && sel.Sel.Name == "FindStringSubmatch":
+				arg := call.Args[0]
+				if id, ok := arg.(*ast.Ident); ok {
+					if d, ok := e.inline[id.Name]; ok {
+						arg = d
+					}
+				}
+				switch oneLine(p.text(arg)) {
+				case "session.lastIP":
+					if prevName != "" {
+						return "", e.errf(st, "the recorded address is matched twice")
+					}
+					prevName = lhs.Name
+				case "request.RemoteAddr":
+					if curName != "" {
+						return "", e.errf(st, "the request's address is matched twice")
+					}
+					curName = lhs.Name
+				default:
+					return "", e.errf(st, "FindStringSubmatch of something that is neither session.lastIP (possibly through a once-defined local) nor request.RemoteAddr")
+				}
+				notes = append(notes, "parameter (AddrRe.submatch of the string): "+oneLine(p.text(st)))
+			default:
+				return "", e.errf(st, "call in the remote-address block other than regexp.MustCompile(lit) / re.FindStringSubmatch(s)")
+			}
+		}
+		if inner == nil || prevName == "" || curName == "" {
+			return "", e.errf(o, "the remote-address block is expected to match session.lastIP and request.RemoteAddr and to end in an if statement")
+		}
+		if inner.Init != nil || inner.Else != nil || len(inner.Body.List) != 1 {
+			return "", e.errf(inner, "the inner if statement is expected to have no init, no else and a single for loop as its body")
+		}
+		loop, ok := inner.Body.List[0].(*ast.ForStmt)
+		if !ok {
+			return "", e.errf(inner, "the inner if statement is expected to have a single for loop as its body")
+		}
+		// the variables of the block are not once-defined locals to be inlined
+		for _, n := range []string{"valid", prevName, curName, reName} {
+			delete(e.inline, n)
+		}
+		e.bound["valid"] = pfVal{"v_valid", pfBool}
+		e.bound[prevName] = pfVal{"v_" + prevName, pfCaps}
+		e.bound[curName] = pfVal{"v_" + curName, pfCaps}
+		g1, err := boolOf(e, o.Cond)
+		if err != nil {
+			return "", err
+		}
+		g2, err := boolOf(e, inner.Cond)
+		if err != nil {
+			return "", err
+		}
+		// for i := e0; C; i++ { if B { valid = E; break } }
+		init, ok := loop.Init.(*ast.AssignStmt)
+		if !ok || init.Tok != token.DEFINE || len(init.Lhs) != 1 || len(init.Rhs) != 1 {
+			return "", e.errf(loop, "for loop whose init is not `i := e`")
+		}
+		iv, ok := init.Lhs[0].(*ast.Ident)
+		if !ok {
+			return "", e.errf(loop, "for loop whose init is not `i := e`")
+		}
+		i0, err := e.expr(init.Rhs[0])
+		if err != nil {
+			return "", err
+		}
+		i0 = pfCoerce(i0, pfDur)
+		if i0.typ != pfDur {
+			return "", e.errf(init, "loop variable of type %s", i0.typ)
+		}
+		post, ok := loop.Post.(*ast.IncDecStmt)
+		if !ok || post.Tok != token.INC || p.text(post.X) != iv.Name {
+			return "", e.errf(loop, "for loop whose post statement is not `%s++`", iv.Name)
+		}
+		if loop.Cond == nil {
+			return "", e.errf(loop, "for loop without a condition")
+		}
+		if _, dup := e.bound[iv.Name]; dup {
+			return "", e.errf(loop, "loop variable %s shadows a variable of the block", iv.Name)
+		}
+		delete(e.inline, iv.Name)
+		e.bound[iv.Name] = pfVal{"v_" + iv.Name, pfDur}
+		lc, err := boolOf(e, loop.Cond)
+		if err != nil {
+			return "", err
+		}
+		if len(loop.Body.List) != 1 {
+			return "", e.errf(loop, "loop body other than a single if statement")
+		}
+		bi, ok := loop.Body.List[0].(*ast.IfStmt)
+		if !ok || bi.Init != nil || bi.Else != nil || len(bi.Body.List) != 2 {
+			return "", e.errf(loop, "loop body other than `if B { valid = E; break }`")
+		}
+		as, ok := bi.Body.List[0].(*ast.AssignStmt)
+		br, ok2 := bi.Body.List[1].(*ast.BranchStmt)
+		if !ok || !ok2 || as.Tok != token.ASSIGN || len(as.Lhs) != 1 || len(as.Rhs) != 1 || p.text(as.Lhs[0]) != "valid" || br.Tok != token.BREAK || br.Label != nil {
+			return "", e.errf(bi, "loop body other than `if B { valid = E; break }`")
+		}
+		bv, err := e.expr(bi.Cond)
+		if err != nil {
+			return "", err
+		}
+		switch bv.typ {
+		case pfPBool:
+		case pfBool:
+			bv = pfVal{"(Some " + bv.term + ")", pfPBool}
+		default:
+			return "", e.errf(bi.Cond, "condition of type %s", bv.typ)
+		}
+		ev, err := boolOf(e, as.Rhs[0])
+		if err != nil {
+			return "", err
+		}
+		params := fmt.Sprintf("(c : cfg) (v_valid : bool) (v_%s v_%s : list bytes)", prevName, curName)
+		args := fmt.Sprintf("c v_valid v_%s v_%s", prevName, curName)
+		fmt.Fprintf(&b, "(* session.go, Start: %s\n   the value of valid when the loop is left, from %s on *)\n", pfComment(stmtLine(p.fset, loop)), iv.Name)
+		fmt.Fprintf(&b, "Fixpoint gen_ip_loop %s (fuel : nat) (v_%s : Z) : option bool :=\n", params, iv.Name)
+		fmt.Fprintf(&b, "  match fuel with\n  | O => None\n  | S fuel' =>\n    if %s then\n      match %s with\n      | None => None\n      | Some true => Some %s\n", lc, bv.term, ev)
+		fmt.Fprintf(&b, "      | Some false => gen_ip_loop %s fuel' (wrap64 (v_%s + 1))\n      end\n    else Some v_valid\n  end.\n\n", args, iv.Name)
+		fmt.Fprintf(&b, "(* session.go, Start: if %s { ...; if %s { for ... } } - the value of valid afterwards;\n", pfComment(oneLine(p.text(o.Cond))), pfComment(oneLine(p.text(inner.Cond))))
+		fmt.Fprintf(&b, "   v_%s: the captures of the recorded address (session.lastIP), v_%s: of request.RemoteAddr\n", prevName, curName)
+		for _, n := range notes {
+			fmt.Fprintf(&b, "   %s\n", pfComment(n))
+		}
+		if len(e.inlined) > 0 {
+			fmt.Fprintf(&b, "   inlined: %s\n", pfComment(strings.Join(e.inlined, "; ")))
+		}
+		fmt.Fprintf(&b, "*)\nDefinition gen_ip_ok %s : option bool :=\n", params)
+		fmt.Fprintf(&b, "  if %s\n  then (if %s\n        then gen_ip_loop %s %d%%nat %s\n        else Some v_valid)\n  else Some v_valid.\n\n", g1, g2, args, pfLoopFuel, i0.term)
+	}
+
+	// ---- the look-up guard
+	{
+		e, err := newEnv("Start, look-up guard")
+		if err != nil {
+			return "", err
+		}
+		l := pfIfs(start, func(s *ast.IfStmt) bool {
+			return len(s.Body.List) > 0 && pfCalls(s.Body.List[0], "sessionIDMutexes", "Lock")
+		})
+		if len(l) != 1 {
+			return "", fmt.Errorf("Start: an if statement whose body begins with sessionIDMutexes.Lock: found %d times, expected exactly once", len(l))
+		}
+		s := l[0]
+		if s.Init != nil || s.Else != nil {
+			return "", e.errf(s, "the look-up guard has an init clause or an else")
+		}
+		c, ok := s.Body.List[0].(*ast.ExprStmt)
+		var arg string
+		if ok {
+			if call, ok := c.X.(*ast.CallExpr); ok && len(call.Args) == 1 {
+				if id, ok := call.Args[0].(*ast.Ident); ok {
+					arg = id.Name
+				}
+			}
+		}
+		if arg == "" {
+			return "", e.errf(s, "the look-up guard's body is expected to begin with sessionIDMutexes.Lock(<variable>)")
+		}
+		delete(e.inline, arg)
+		e.bound[arg] = pfVal{"v_" + arg, pfStr}
+		g, err := boolOf(e, s.Cond)
+		if err != nil {
+			return "", err
+		}
+		fmt.Fprintf(&b, "(* session.go, Start: if %s { sessionIDMutexes.Lock(%s); ...; sessions.Get(%s) } - is the cookie value looked up at all *)\n", pfComment(oneLine(p.text(s.Cond))), arg, arg)
+		fmt.Fprintf(&b, "Definition gen_lookup_guard (v_%s : bytes) : bool :=\n  %s.\n", arg, g)
 	}
 	return b.String(), nil
 }
